@@ -1485,12 +1485,17 @@ impl<'c, T: Sut> Sim<'c, T> {
                 }
             }
             last_reprs.push(hs.last().map(T::hrepr).unwrap_or_default());
+            let collapse_top = self.caps.collapse_top;
             let inst = &mut self.pop[i];
+            // A collapsing region keeps the *stored* item when the pushed one is equal by the owned
+            // type's PartialEq (0.0 == -0.0), also across the boundary of this bulk push.
+            let stored = match inst.last_push {
+                Some(pi) if collapse_top && v.peq(&inst.model[pi].1) => inst.model[pi].1.clone(),
+                _ => v.clone(),
+            };
             for h in hs {
                 Self::note_stats(inst, coded, v);
-                // a collapsing region stores the first and returns its index for the rest; the
-                // stored value is the same in either case
-                inst.model.push((h, v.clone()));
+                inst.model.push((h, stored.clone()));
             }
             inst.pushes_since_reset += n;
             inst.last_push = inst.model.len().checked_sub(1);
